@@ -247,7 +247,7 @@ func (w *World) TryMethod(rel, typ, name string) *ssa.Function {
 				if len(sel.Index()) != 1 {
 					continue
 				}
-				if f := w.Prog.MethodValue(sel); f != nil {
+				if f := w.Prog.MethodValue(sel); f != nil && f.Synthetic == "" {
 					return f
 				}
 			}
